@@ -24,11 +24,26 @@ def cmdAttempts (j : Json) : Except String Json := do
     ("attempts", toJson (r.attempts.map fun a => Json.mkObj [("err", toJson a.err), ("resp", a.resp)])),
     ("evs", toJson r.evs)]
 
+def cmdBuild (j : Json) : Except String Json := do
+  let calls : Array Json ← j.getObjValAs? (Array Json) "calls"
+  let cs ← calls.toList.mapM parseCall
+  -- the first call is builder.New (= Reset on a fresh builder); if it fails there is no builder
+  match cs with
+  | [] => return Json.mkObj [("rets", Json.arr #[])]
+  | c0 :: rest =>
+    let (s0, r0) := Builder.step {} c0
+    match r0 with
+    | .ok =>
+      let (_, rs) := Builder.run s0 rest
+      return Json.mkObj [("rets", toJson (r0 :: rs))]
+    | _ => return Json.mkObj [("rets", toJson [r0])]
+
 def dispatch (j : Json) : Except String Json := do
   let cmd ← j.getObjValAs? String "cmd"
   match cmd with
   | "walk" => cmdWalk j
   | "attempts" => cmdAttempts j
+  | "build" => cmdBuild j
   | "ping" => return "pong"
   | _ => throw s!"unknown cmd {cmd}"
 
